@@ -401,7 +401,7 @@ def write_across_reconnect(r):
         threading.excepthook = lambda a: errors.append(a.exc_type.__name__)
         blocked, release = threading.Event(), threading.Event()
         try:
-            if rig.login() != "transport":
+            if rig.login(timeout=90.0) != "transport":
                 raise core.MachineryError("first login of the rig failed")
             d1 = rig.dispatchers[-1]
             orig_send = d1.sendData
@@ -412,7 +412,7 @@ def write_across_reconnect(r):
                 count["n"] += 1
                 if count["n"] == (1 if variant == "header" else 2):
                     blocked.set()
-                    release.wait(10)
+                    release.wait(20)
                     if not d1.open:
                         return          # the socket is gone: the write fails / is discarded
                 orig_send(data)
@@ -420,7 +420,7 @@ def write_across_reconnect(r):
             a = threading.Thread(target=lambda: rig.top.toLower(ProtocolTreeNode("iq", {"id": "inflight", "type": "get", "xmlns": "w:p"})))
             a.daemon = True
             a.start()
-            if not blocked.wait(5):
+            if not blocked.wait(60):
                 raise core.MachineryError("the sender never reached the socket write")
             d1.open = False
             def connection_lost():
@@ -438,16 +438,16 @@ def write_across_reconnect(r):
             if b.is_alive():
                 # the stack makes the disconnect wait for the write in progress: let the write finish first
                 release.set()
-                b.join(5)
-                a.join(5)
+                b.join(60)
+                a.join(60)
             srv2 = NoiseServer(static=srv1.static)
             rig.server = srv2
             problems = []
             try:
-                state = rig.login()
+                state = rig.login(timeout=90.0)
                 release.set()
-                a.join(5)
-                b.join(5)
+                a.join(60)
+                b.join(60)
                 time_ok = not a.is_alive() and not b.is_alive()
                 if not time_ok:
                     problems.append(("wedged", "the sender / the disconnect handling did not finish"))
@@ -519,7 +519,7 @@ def handshake_thread_failure(r):
         old_hook = threading.excepthook
         threading.excepthook = lambda a: errors.append(a.exc_type.__name__)
         try:
-            if rig.login() != "transport":
+            if rig.login(timeout=90.0) != "transport":
                 raise core.MachineryError("first login of the rig failed")
             d1 = rig.dispatchers[-1]
             d1.open = False
@@ -543,10 +543,10 @@ def handshake_thread_failure(r):
                 def __getattr__(b, n):
                     return getattr(b.srv, n)
             rig.server = Behind()
-            state = rig.login()
+            state = rig.login(timeout=90.0)
             w = rig.noise._handshake_worker
             if w is not None:
-                w.join(5)
+                w.join(60)
             problems = []
             if rig.server.variant != "IK" or not rig.server.done:
                 raise core.MachineryError("second login of the rig was not an IK handshake with stanzas behind the hello (%s)" % rig.server.variant)
@@ -578,7 +578,7 @@ def handshake_thread_failure(r):
                 t = threading.Thread(target=lambda: (rig.top.toLower(ProtocolTreeNode("iq", {"id": "after", "type": "get", "xmlns": "w:p"})), done.append(1)))
                 t.daemon = True
                 t.start()
-                t.join(5)
+                t.join(60)
                 if not done:
                     problems.append(("wedged", "a send after the failure does not return"))
                 else:
